@@ -17,6 +17,8 @@ from analysis.ir import callee_path, AnchorMissing
 from analysis.prov import prov_of, prov_assuming, strip, leaves, subterms, show
 from analysis.match import is_param, is_field, is_call, const_val, sh, mentions, fail_conditions
 from rules.common import calls_to, ends, arg_name, acc
+from analysis.poly import poly, show_poly
+from rules.ranges import search_range_bounds
 from rules import swaploop as SL
 from rules import C15, C12
 
@@ -131,6 +133,8 @@ def R2_proxy_and_order(run):
     run.check("R2", "start-index-validity", valid, "start indexes outside the valid range are no longer filtered", loc=g.loc(), detail="filter by check_is_valid_start_tick")
 
 
+
+
 def R3_search_siblings(run):
     run.title("R3", "get_next_init_tick_index of the fixed and dynamic arrays agree (guards, offset arithmetic, returned tick) except for the initialised-test primitive; the zeroed "
                     "array performs the same range check and returns None; all use shifted = !a_to_b; in_search_range / tick_offset / get_offset define one lookup")
@@ -169,8 +173,13 @@ def R3_search_siblings(run):
                     continue
                 for (_, _, t) in pvc.var_defs(loc_):
                     s = strip(t)
-                    if s[0] == "bin" and s[1] in ("Add", "Sub", "AddWithOverflow", "SubWithOverflow") and const_val(s[3]) == 1 and strip(s[2])[0] == "var" and strip(s[2])[2] == loc_:
-                        steps.add(s[1][:3])
+                    if s[0] == "bin" and s[1] in ("Add", "Sub", "AddWithOverflow", "SubWithOverflow") and strip(s[2])[0] == "var" and strip(s[2])[2] == loc_:
+                        for amt in leaves(strip(s[3])):
+                            v_ = const_val(amt)
+                            if v_ in (1, -1):   # cursor + (-1) is a step to the left
+                                steps.add(s[1][:3] if v_ == 1 else {"Add": "Sub", "Sub": "Add"}[s[1][:3]])
+                            else:
+                                steps.add("by %s" % show(amt))
             want = {"Sub"} if ab else {"Add"}
             run.check("R3", "step-direction@%s[a_to_b=%d]" % ("fixed" if path is FIXED else "dynamic", ab), steps == want,
                       "search offset moves by %s for a_to_b=%s, expected %s (a_to_b searches leftwards inclusive, b_to_a rightwards exclusive)" % (sorted(steps), ab, sorted(want)), loc=fn.loc(),
@@ -179,49 +188,14 @@ def R3_search_siblings(run):
     fn = facts.need_fn(TA + "::in_search_range")
     run.touch(fn)
     for shifted in (False, True):
-        pv = prov_of(fn, {"shifted": shifted}, cut=True)
-        conds = set()   # (op, role of the bound): the bound variable is classified by its initial value, not by its name
-
-        def bound_role(t):
-            t = strip(t)
-            if t[0] != "var":
-                return "?"
-            inits = [strip(d) for (_, _, d) in pv.var_defs(t[2]) if not any(x[0] == "var" and x[2] == t[2] for x in subterms(d))]
-            if len(inits) != 1:
-                return "?"
-            i0 = inits[0]
-            if is_call(i0, "start_tick_index"):
-                return "lower"
-            if i0[0] == "bin" and i0[1].startswith("Add") and is_call(i0[2], "start_tick_index") and mentions(i0[3], lambda s_: s_[0] == "param" and s_[1] == "tick_spacing") and \
-                    mentions(i0[3], lambda s_: s_[0] == "const" and s_[1] == 88):
-                return "upper"
-            return "?"
-        bvars = {}
-        for at in A.atoms(fn, {"shifted": shifted}, cut=True):
-            c = at.cond()
-            if c and is_param(c[1], "tick_index"):
-                conds.add((c[0], bound_role(c[2])))
-                bvars[bound_role(c[2])] = strip(c[2])
-        for bi, bb in enumerate(fn.blocks):
-            if bb["t"]["k"] == "ret" and pv.flow.state_in[bi] is not None:
-                for l_ in leaves(pv.local(0, bi, len(bb["s"]))):
-                    s_ = strip(l_)
-                    if s_[0] == "bin" and is_param(s_[2], "tick_index"):
-                        conds.add((s_[1], bound_role(s_[3])))
-                        bvars[bound_role(s_[3])] = strip(s_[3])
-        lo = hi = None
-        for role_, v_ in bvars.items():
-            if v_[0] != "var":
-                continue
-            ds = [t for (_, _, t) in pv.var_defs(v_[2])]
-            subs = [t for t in ds if strip(t)[0] == "bin" and strip(t)[1] in ("Sub", "SubWithOverflow") and mentions(strip(t)[3], lambda s_: s_[0] == "param" and s_[1] == "tick_spacing")]
-            if role_ == "lower":
-                lo = len(subs)
-            elif role_ == "upper":
-                hi = len(subs)
-        ok = conds == {("Ge", "lower"), ("Lt", "upper")} and (lo, hi) == ((1, 1) if shifted else (0, 0))
-        run.check("R3", "in_search_range[shifted=%d]" % shifted, ok, "in_search_range(shifted=%s): tests %s, bound shifts (lower %s, upper %s)" % (shifted, sorted(conds), lo, hi), loc=fn.loc(),
-                  detail="lower <= tick < upper%s" % (", both bounds shifted by -tick_spacing" if shifted else ""))
+        got, why = search_range_bounds(fn, shifted)
+        s_ = 1 if shifted else 0
+        want = {"Ge": {("S",): 1, ("T",): -s_}, "Lt": {("S",): 1, ("T",): 88 - s_}}
+        want = {k: {m: c for m, c in v.items() if c} for k, v in want.items()}
+        ok = got == want
+        run.check("R3", "in_search_range[shifted=%d]" % shifted, ok, "in_search_range(shifted=%s) accepts %s%s" % (shifted, " and ".join(
+            "tick %s %s" % (">=" if k == "Ge" else "<", show_poly(v)) for k, v in sorted((got or {}).items())) or "nothing recognisable", "; " + why if why else ""), loc=fn.loc(),
+            detail="start - s*spacing <= tick < start + 88*spacing - s*spacing, s = %d" % s_)
     g = facts.need_fn("state::tick_array::get_offset")
     pv = prov_of(g, None, cut=False)
     divs = [st["rv"]["bin"] for bb in g.blocks for st in bb["s"] if st["k"] == "=" and st["rv"].get("bin") in ("Div", "Rem")]
